@@ -33,6 +33,30 @@ Theorem C11_raise : forall P brace tilde norm parse fl limit pm u pats cl neg0 s
 Proof. exact loop_bound. Qed.
 Print Assumptions C11_raise.
 
+(* pass direction: a call whose total expansion count - duplicates included, the exclusion patterns already compiled
+   included - is at most L > 0 never raises the limit error.  For every parser, flag word and pattern list, and every
+   brace oracle that honours bracex's contract (asked for at most lim > 0 expansions it returns the full expansion
+   whenever that is not longer than lim; the harness re-observes this on the real bracex on every run).  [total_items]
+   counts the pieces of every brace expansion after SPLIT; a pattern that does not normalise ends the call with a
+   syntax error, so what follows it does not count. *)
+Theorem C11_pass : forall P brace tilde norm parse full,
+  (forall p lim, 0 < lim -> Z.of_nat (length (full p)) <= lim -> brace p lim = Some (full p)) ->
+  forall tr is_bytes flags limit pats negative0,
+  0 < limit ->
+  Z.of_nat (length negative0)
+    + total_items P tilde norm full (core_flags tr flags) (is_unix_style P (core_flags tr flags)) pats <= limit ->
+  list_core P brace tilde norm parse tr is_bytes flags limit pats negative0 <> inr LLimit.
+Proof. exact list_core_pass. Qed.
+Print Assumptions C11_pass.
+
+Example C11_pass_premises_hold :
+  Z.of_nat (length [S_ "x"; S_ "y"]) +
+  total_items linux (fun _ p => p) (fun _ _ p => Some p) w_full (core_flags true BRACE)
+              (is_unix_style linux (core_flags true BRACE)) [S_ "{1..10}"] <= 12
+  /\ list_core linux w_brace (fun _ p => p) (fun _ _ p => Some p) (fun _ p => inl p) true false BRACE 12
+               [S_ "{1..10}"] [S_ "x"; S_ "y"] <> inr LLimit.
+Proof. exact pass_premise_example. Qed.
+
 (* the `exclude=` witness that defeated the limit before the fix: commits (limit=3, three exclusions) now raises *)
 Example C11_exclude_budget_fixed :
   pattern_lists linux w_brace (fun _ p => p) (fun _ _ p => Some p) (fun _ p => inl p) true false BRACE 3
